@@ -36,6 +36,14 @@ const (
 	c15chCleanRecon   = "clean-reconnect"      // new connection, same client id, clean session
 	c15chSubscribe    = "subscribe"            // SUBSCRIBE of filters the client does not hold yet
 	c15chConnect      = "connect"              // a client that had left connects again and subscribes
+	// the client's session is deleted through the admin delete-session endpoint (storage delete ->
+	// delete watch -> Broker.deleteSession) while its connection is open and idle; the harness keeps
+	// that connection open and silent afterwards.  From then on the client is not judged (what a
+	// client whose session the administrator deleted is owed is left open by the property); what
+	// is judged is everybody else.  On the code under test the client id leaves Broker.clients at
+	// once while its filters stay in the topic trie until the connection ends or the id connects
+	// again: fan-outs then meet a subscriber id without a client entry (observed, see c15churnRun).
+	c15chSessDel = "session-deleted"
 )
 
 type c15churnStep struct {
@@ -92,7 +100,7 @@ func (m *c15churnModel) apply(st c15churnStep) {
 			}
 		}
 		m.subs[st.CI] = keep
-	case c15chDisconnect, c15chDrop:
+	case c15chDisconnect, c15chDrop, c15chSessDel:
 		m.conn[st.CI] = false
 		m.subs[st.CI] = nil
 	case c15chCleanRecon:
@@ -123,7 +131,7 @@ func (m *c15churnModel) connected() (out []int) {
 // Needs the model state BEFORE the step.
 func (m *c15churnModel) touched(st c15churnStep) []string {
 	switch st.Kind {
-	case c15chDisconnect, c15chDrop, c15chCleanRecon:
+	case c15chDisconnect, c15chDrop, c15chCleanRecon, c15chSessDel:
 		var fs []string
 		for _, s := range m.subs[st.CI] {
 			fs = append(fs, s.Filter)
@@ -247,6 +255,60 @@ func c15churnSys() []c15churnCase {
 	return out
 }
 
+// c15churnSysStale: the systematic fan-out-past-a-deleted-session scenarios.  N staying clients
+// (N = 2..6, mixed QoS) whose filters match the same topics as the filters of 1-2 clients whose
+// session the administrator deletes (same filter / overlapping wildcard filters / lower and higher
+// subscription QoS than the message), optionally the deleted id comes back with a new connection.
+func c15churnSysStale() []c15churnCase {
+	var out []c15churnCase
+	stay := func(filters []string, qs ...byte) []c15ClientSpec {
+		var cs []c15ClientSpec
+		for i, q := range qs {
+			cs = append(cs, c15ClientSpec{CID: fmt.Sprintf("v%d", i), Subs: []c15Sub{{filters[i%len(filters)], q}}})
+		}
+		return cs
+	}
+	del := func(ci int) c15churnStep { return c15churnStep{Kind: c15chSessDel, CI: ci} }
+	back := func(ci int, subs []c15Sub) c15churnStep {
+		st := c15churnStep{Kind: c15chConnect, CI: ci}
+		for _, s := range subs {
+			st.Filters = append(st.Filters, s.Filter)
+			st.QoS = append(st.QoS, s.QoS)
+		}
+		return st
+	}
+	add := func(class string, cs []c15ClientSpec, gone []c15ClientSpec, lead func(first int) []c15churnStep) {
+		first := len(cs)
+		out = append(out, c15churnCase{Pop: c15churnPopOf(class, append(cs, gone...)...), Lead: lead(first)})
+	}
+	// same filter, the deleted client could be visited anywhere among 4 / 6 / 2 staying ones
+	add("churn-session-deleted-same-filter", stay([]string{"d/1"}, 1, 1, 0, 1), []c15ClientSpec{{CID: "z", Subs: []c15Sub{{"d/1", 1}}}},
+		func(f int) []c15churnStep { return []c15churnStep{del(f)} })
+	add("churn-session-deleted-same-filter", stay([]string{"d"}, 1, 0, 1, 1, 0, 1), []c15ClientSpec{{CID: "z", Subs: []c15Sub{{"d", 1}}}},
+		func(f int) []c15churnStep { return []c15churnStep{del(f)} })
+	add("churn-session-deleted-same-filter", stay([]string{"d/1"}, 1, 1), []c15ClientSpec{{CID: "z", Subs: []c15Sub{{"d/1", 0}}}},
+		func(f int) []c15churnStep { return []c15churnStep{del(f)} })
+	// overlapping wildcard filters of different clients
+	add("churn-session-deleted-overlapping-filters", stay([]string{"d/1", "d/+", "d/#", "#"}, 1, 0, 1, 1), []c15ClientSpec{{CID: "z", Subs: []c15Sub{{"+/1", 1}}}},
+		func(f int) []c15churnStep { return []c15churnStep{del(f)} })
+	add("churn-session-deleted-overlapping-filters", stay([]string{"d/1/s", "d/1/+", "d/1/#"}, 1, 1, 0, 1, 1), []c15ClientSpec{{CID: "z", Subs: []c15Sub{{"d/+/s", 1}, {"d/1", 0}}}},
+		func(f int) []c15churnStep { return []c15churnStep{del(f)} })
+	// two deleted sessions, one after the other
+	zz := []c15ClientSpec{{CID: "z", Subs: []c15Sub{{"d", 1}}}, {CID: "y", Subs: []c15Sub{{"#", 0}}}}
+	add("churn-two-sessions-deleted", stay([]string{"d", "+"}, 1, 1, 0), zz,
+		func(f int) []c15churnStep { return []c15churnStep{del(f), del(f + 1)} })
+	// the deleted id comes back (clean session, new connection) while its old connection lingers
+	zb := []c15ClientSpec{{CID: "z", Subs: []c15Sub{{"d/1", 1}}}}
+	add("churn-session-deleted-then-back", stay([]string{"d/1", "d/#"}, 1, 0, 1), zb,
+		func(f int) []c15churnStep { return []c15churnStep{del(f), back(f, zb[0].Subs)} })
+	// a staying client leaves / unsubscribes while a deleted session's filters are still routed
+	add("churn-session-deleted-then-peer-leaves", stay([]string{"d/1", "d/1", "d/+", "d/1"}, 1, 1, 1, 0), []c15ClientSpec{{CID: "z", Subs: []c15Sub{{"d/1", 1}}}},
+		func(f int) []c15churnStep {
+			return []c15churnStep{del(f), {Kind: c15chUnsub, CI: 0, Filters: []string{"d/1"}}, {Kind: c15chDrop, CI: 1}}
+		})
+	return out
+}
+
 func c15churnLevelsPrefix(short, long []string) bool {
 	if len(short) >= len(long) {
 		return false
@@ -304,8 +366,13 @@ func c15churnPrefixes(m *c15churnModel, ci int) []string {
 func c15churnGenStep(rng *rand.Rand, pop c15Pop, m *c15churnModel) c15churnStep {
 	for {
 		ci := rng.Intn(len(pop.Clients))
-		w := rng.Intn(16)
+		w := rng.Intn(18)
 		switch {
+		case w >= 16: // the session of a connected client is deleted by the administrator
+			if !m.conn[ci] || len(m.connected()) < 2 {
+				continue
+			}
+			return c15churnStep{Kind: c15chSessDel, CI: ci}
 		case w < 5: // unsubscribe held filters
 			if !m.conn[ci] || len(m.subs[ci]) == 0 {
 				continue
@@ -397,10 +464,10 @@ func TestVerif_C15_Churn(t *testing.T) {
 	c15rigSkipForReplay(t)
 	r := kit.Start(t, "C15")
 	defer r.Finish()
-	r.Rule("population churn between delivery rounds: 29 systematic populations (a staying client whose filter is BELOW (F/x, F/+, F/#, F/x/y) / EQUAL TO / ABOVE / a SIBLING of the filter F of a second client, F = d/1 or d, optional bystander on '#' or d/2) x the way the second client gives F up (UNSUBSCRIBE, DISCONNECT, connection loss, replacement by a new connection with a clean session, UNSUBSCRIBE of the prefix filter F that nobody holds) followed by 2 random steps; then seeded random populations (3-6 clients x 1-3 filters with independent QoS 0/1 from a 16-filter alphabet dense in prefix relations) with 4-6 random steps; steps = UNSUBSCRIBE of 1..all held filters (one packet or one per filter), UNSUBSCRIBE of a filter not held (alphabet or an interior trie node), DISCONNECT, connection loss, clean-session take-over (old connection closed at once or left open), SUBSCRIBE of 1-2 further filters, a client that left connects again; 2 fresh brokers per population with shuffled connect/SUBSCRIBE order and their own random steps; before the first and after EVERY step all (topic, QoS 0/1) messages are injected through httpTopicsPublishHandler in bursts of 1-8 and every client connected now is judged against the eligibility model over its CURRENT subscriptions; payload content of every message from the classes of the Delivery part (ascii id alone, id|binary 0 B - 4 KB incl. all byte values and non-UTF-8 bytes, id|UTF-8 / printable / control text, at most one completely empty payload per broker), plain JSON string or base64 flag; a message is recognised by the id at the start of its payload, every received copy must have exactly the published bytes and nothing but published messages may arrive; distinct = (step kind, own/peer step, trie relation of the judged client's matching subscription to the changed filters, message QoS, the client's (minQ,maxQ) for the topic, delivered)")
-	r.Assume("every step is complete before the next round starts (UNSUBACK/SUBACK/CONNACK seen, or the broker closed the leaving connection, which it does after its teardown); all sessions are clean sessions; a client never re-subscribes a filter it currently holds (replacement semantics are not part of the property sentence); copies that reach clients without an eligible current subscription are counted, not judged; a loss that was already reported for a client's subscription is not reported again in later rounds of the same broker instance")
-	sys := c15churnSys()
-	n := r.N(48, 2400)
+	r.Rule("population churn between delivery rounds: 37 systematic populations (29: a staying client whose filter is BELOW (F/x, F/+, F/#, F/x/y) / EQUAL TO / ABOVE / a SIBLING of the filter F of a second client, F = d/1 or d, optional bystander on '#' or d/2) x the way the second client gives F up (UNSUBSCRIBE, DISCONNECT, connection loss, replacement by a new connection with a clean session, UNSUBSCRIBE of the prefix filter F that nobody holds) followed by 2 random steps; 8: fan-out past a deleted session: 2-6 staying clients with mixed QoS whose filters (the same filter, or overlapping F / F/+ / F/# / # / +/x) match the topics of 1-2 further clients whose SESSION IS DELETED through the admin delete-session endpoint (storage delete, delete-watch event delivered to the broker and completely processed) while their connection is idle and stays open and silent, optionally followed by that id connecting again, a second deleted session, or a staying client unsubscribing / losing its connection, then 2 random steps); then seeded random populations (3-6 clients x 1-3 filters with independent QoS 0/1 from a 16-filter alphabet dense in prefix relations) with 4-6 random steps; steps = UNSUBSCRIBE of 1..all held filters (one packet or one per filter), UNSUBSCRIBE of a filter not held (alphabet or an interior trie node), DISCONNECT, connection loss, clean-session take-over (old connection closed at once or left open), SUBSCRIBE of 1-2 further filters, a client that left (or whose session was deleted) connects again, admin delete of the session of a connected client (weight 2/18); after a session delete the harness reads from the broker (own locks) that the id has left the client table while its filters are still routed, and for every message which routed ids have no client entry: the staying clients are judged as always, the deleted client is not judged; 2 fresh brokers per population with shuffled connect/SUBSCRIBE order and their own random steps; before the first and after EVERY step all (topic, QoS 0/1) messages are injected through httpTopicsPublishHandler in bursts of 1-8 and every client connected now is judged against the eligibility model over its CURRENT subscriptions; payload content of every message from the classes of the Delivery part (ascii id alone, id|binary 0 B - 4 KB incl. all byte values and non-UTF-8 bytes, id|UTF-8 / printable / control text, at most one completely empty payload per broker), plain JSON string or base64 flag; a message is recognised by the id at the start of its payload, every received copy must have exactly the published bytes and nothing but published messages may arrive; distinct = (step kind, own/peer step, trie relation of the judged client's matching subscription to the changed filters, message QoS, the client's (minQ,maxQ) for the topic, delivered, delivered past a routed id without client entry)")
+	r.Assume("every step is complete before the next round starts (UNSUBACK/SUBACK/CONNACK seen, or the broker closed the leaving connection, which it does after its teardown; for a session delete: the delete-watch event was taken by the broker's watch loop and every deleteSession goroutine has finished); the delete-watch events that the teardown of clean sessions produces are delivered to the broker right after the step that ended the session (a timely watch), so they only ever concern ids that are gone; what a client is owed after the administrator deleted its session is left open by the property: it is not judged until its id connects again; all sessions are clean sessions; a client never re-subscribes a filter it currently holds (replacement semantics are not part of the property sentence); copies that reach clients without an eligible current subscription are counted, not judged; a loss that was already reported for a client's subscription is not reported again in later rounds of the same broker instance")
+	sys := append(c15churnSys(), c15churnSysStale()...)
+	n := r.N(56, 2400)
 	const instances = 2
 	for i := 0; i < n; i++ {
 		if !r.Mine(i) {
@@ -428,8 +495,17 @@ func TestVerif_C15_Churn(t *testing.T) {
 			r.Sample(cc)
 		}
 	}
-	for _, k := range []string{c15chUnsub, c15chUnsubNotHeld, c15chDisconnect, c15chDrop, c15chCleanRecon, c15chSubscribe, c15chConnect} {
+	for _, k := range []string{c15chUnsub, c15chUnsubNotHeld, c15chDisconnect, c15chDrop, c15chCleanRecon, c15chSubscribe, c15chConnect, c15chSessDel} {
 		r.Require("churn_steps:"+k, 1)
+	}
+	// the input class "fan-out meets a subscriber id that has no client entry" must really have
+	// been established (observed on the broker, not assumed) and exercised with q0 and q1
+	r.Require("churn_session_deleted:id_left_client_table_and_filters_still_routed", 1)
+	r.Require("churn_session_deleted:id_connected_again_while_old_connection_lingers", 1)
+	r.Require("churn_delivered_after_peer_session_deleted", 1)
+	for q := 0; q <= 1; q++ {
+		r.Require(fmt.Sprintf("churn_delivered_q%d_past_matching_subscriber_without_client_entry", q), 1)
+		r.Require(fmt.Sprintf("churn_messages_q%d_owed_to_2+_clients_with_matching_subscriber_without_client_entry", q), 1)
 	}
 	for _, rel := range c15churnRelNames[1:] {
 		r.Require("churn_delivered_after_peer_gave_up_filter:"+rel, 1)
@@ -545,6 +621,23 @@ func c15churnRun(r *kit.Run, rng *rand.Rand, caseNo, inst int, pop c15Pop, scrip
 		reported[i] = map[string]bool{}
 	}
 	seq := 0
+	gone := map[int]bool{} // clients whose session was deleted and whose id has not connected again
+	// clientless: ids of deleted sessions that the broker still routes (topic, qos) to although
+	// they have no entry in its client table (both read through the broker's own locks)
+	clientless := func(topic string, qos int) (out []string) {
+		for ci := range pop.Clients {
+			if !gone[ci] {
+				continue
+			}
+			cid := pop.Clients[ci].CID
+			if ok, q := rb.routes(topic, cid); ok && int(q) >= qos {
+				if reg, _ := rb.registered(cid); reg == nil {
+					out = append(out, cid)
+				}
+			}
+		}
+		return
+	}
 	strange := map[string]bool{}
 	known := map[string]string{} // identity -> published bytes, of everything injected into this broker
 	// at most one message per broker instance has the completely empty payload (it cannot carry an id)
@@ -617,7 +710,7 @@ func c15churnRun(r *kit.Run, rng *rand.Rand, caseNo, inst int, pop c15Pop, scrip
 				}
 			}
 			for _, mg := range burst {
-				c15churnJudge(r, pop, m, got, mg, last, touched, reported, map[string]interface{}{"subscribe_order": orderDesc, "steps_done": script[:no], "round": no})
+				c15churnJudge(r, pop, m, got, mg, last, touched, reported, clientless(mg.Topic, mg.QoS), map[string]interface{}{"subscribe_order": orderDesc, "steps_done": script[:no], "round": no})
 			}
 		}
 		return true
@@ -693,6 +786,53 @@ func c15churnRun(r *kit.Run, rng *rand.Rand, caseNo, inst int, pop c15Pop, scrip
 			if !ack(nc.subscribe(st.Filters, st.QoS), "SUBACK") {
 				return false
 			}
+			if gone[st.CI] {
+				delete(gone, st.CI)
+				r.Count("churn_session_deleted:id_connected_again_while_old_connection_lingers", 1)
+			}
+		case c15chSessDel:
+			// make the connection idle first: the PINGRESP orders every PUBACK this client wrote
+			// for the last round before the delete, so that nothing is in flight towards the broker
+			if !ack(c.ping(), "PINGRESP before the session delete") {
+				return false
+			}
+			cid := pop.Clients[st.CI].CID
+			if code := rb.httpDeleteSession(cid); code != 200 {
+				r.Inconclusive(fmt.Sprintf("admin delete-session endpoint answered %d", code))
+				return false
+			}
+			if _, ok := rb.flushDeletes(); !ok {
+				r.Inconclusive("watchdog: delete-watch event not processed")
+				return false
+			}
+			conns[st.CI] = nil
+			lingering = append(lingering, c) // stays open and silent until the end of the instance
+			gone[st.CI] = true
+			// what the delete has made of the client on the broker: observed, not assumed
+			reg, _ := rb.registered(cid)
+			routed := false
+			for _, f := range touched {
+				ok, _ := rb.routes(c15churnTopicOf(f), cid)
+				routed = routed || ok
+			}
+			switch {
+			case reg == nil && routed:
+				r.Count("churn_session_deleted:id_left_client_table_and_filters_still_routed", 1)
+			case reg == nil:
+				r.Count("churn_session_deleted:id_left_client_table_and_filters_unrouted", 1)
+			default:
+				r.Count("churn_session_deleted:id_still_in_client_table", 1)
+			}
+		}
+		// the delete-watch events of the sessions that ended with this step (clean sessions are
+		// deleted from the storage at teardown) reach the broker now, as a timely watch would
+		// deliver them; they concern ids that are gone
+		if st.Kind != c15chSessDel && rb.store.heldCount() > 0 {
+			if _, ok := rb.flushDeletes(); !ok {
+				r.Inconclusive("watchdog: delete-watch event not processed")
+				return false
+			}
+			r.Count("churn_delete_watch_events_of_ended_clean_sessions_delivered", 1)
 		}
 		m.apply(st)
 		if st.Kind == c15chSubscribe || st.Kind == c15chConnect {
@@ -708,7 +848,7 @@ func c15churnRun(r *kit.Run, rng *rand.Rand, caseNo, inst int, pop c15Pop, scrip
 	return true
 }
 
-func c15churnJudge(r *kit.Run, pop c15Pop, m *c15churnModel, got []map[string][]c15rigEvt, mg c15msg, last *c15churnStep, touched []string, reported []map[string]bool, ctx map[string]interface{}) {
+func c15churnJudge(r *kit.Run, pop c15Pop, m *c15churnModel, got []map[string][]c15rigEvt, mg c15msg, last *c15churnStep, touched []string, reported []map[string]bool, clientless []string, ctx map[string]interface{}) {
 	r.Eval(1)
 	type st struct {
 		CID    string   `json:"cid"`
@@ -733,6 +873,17 @@ func c15churnJudge(r *kit.Run, pop c15Pop, m *c15churnModel, got []map[string][]
 		}
 	}
 	anyOwed := false
+	if len(clientless) > 0 {
+		owed := 0
+		for _, s := range sts {
+			if s.Owed {
+				owed++
+			}
+		}
+		if owed >= 2 {
+			r.Count(fmt.Sprintf("churn_messages_q%d_owed_to_2+_clients_with_matching_subscriber_without_client_entry", mg.QoS), 1)
+		}
+	}
 	for ci := range pop.Clients {
 		k, ok := idx[ci]
 		if !ok {
@@ -786,11 +937,18 @@ func c15churnJudge(r *kit.Run, pop c15Pop, m *c15churnModel, got []map[string][]
 			if last != nil {
 				if who == "own" {
 					r.Count("churn_delivered_after_own_step", 1)
+				} else if kind == c15chSessDel {
+					r.Count("churn_delivered_after_peer_session_deleted", 1)
 				} else if kind != c15chSubscribe && kind != c15chConnect {
 					r.Count("churn_delivered_after_peer_gave_up_filter:"+c15churnRelNames[rel], 1)
 				}
 			}
-			r.Cover(fmt.Sprintf("churn:%s/%s/%s/q%d/subq=%d%d/delivered", kind, who, c15churnRelNames[rel], mg.QoS, s.MinQ+1, s.MaxQ+1))
+			past := ""
+			if len(clientless) > 0 {
+				past = "/past-subscriber-without-client-entry"
+				r.Count(fmt.Sprintf("churn_delivered_q%d_past_matching_subscriber_without_client_entry", mg.QoS), 1)
+			}
+			r.Cover(fmt.Sprintf("churn:%s/%s/%s/q%d/subq=%d%d/delivered%s", kind, who, c15churnRelNames[rel], mg.QoS, s.MinQ+1, s.MaxQ+1, past))
 			continue
 		}
 		// owed and absent from the log at the PINGRESP
@@ -819,8 +977,15 @@ func c15churnJudge(r *kit.Run, pop c15Pop, m *c15churnModel, got []map[string][]
 		if last != nil {
 			sig = fmt.Sprintf("delivery-missed-after-churn:q%d:%s-%s:%s%s", mg.QoS, who, kind, c15churnRelNames[rel], note)
 		}
+		if len(clientless) > 0 {
+			// the broker's routing table names, for this topic and QoS, an id whose session was deleted
+			// and that has no client entry: that state outlives the step that created it, so the loss
+			// is named after it and not after whatever step happened to be the last one
+			sig = fmt.Sprintf("delivery-missed-after-churn:q%d:deleted-session-still-routed-without-client-entry%s", mg.QoS, note)
+		}
 		det := map[string]interface{}{
 			"population": pop, "msg": mg, "missed_by": s.CID, "eligible_through": eligible, "last_step": last, "filters_changed_by_last_step": touched, "connected_clients_now": sts,
+			"ids_routed_for_this_message_without_client_entry(session deleted, connection lingering)": clientless,
 			"how_decided": "the step was complete (UNSUBACK/SUBACK/CONNACK seen or connection closed by the broker) before the message was injected; publish goroutines finished, then PINGREQ/PINGRESP on this connection: the message is not in the receive log",
 		}
 		for k, v := range ctx {
